@@ -9,8 +9,9 @@
       - an attribute set is a canonical key ([N]); a data point value is a
         vector: [[v]] for sums and gauges, [[sum; count; bucket counts...]]
         for histograms (so "count, sum and per-bucket counts" are the components);
-      - a history is a list of [op]; [Collect script] is one collection point at
-        which BOTH readers collect; [script] lists what each callback would observe
+      - a history is a list of [op]; [Collect script failing] is one collection point at
+        which BOTH readers collect; [failing] lists the callbacks that return an error in this
+        cycle (after making their observations); [script] lists what each callback would observe
         if it were invoked in that cycle (callback id, instrument, attribute set, value),
         in the callback's own order;
       - instants are compared only by order and equality.                       *)
@@ -40,7 +41,7 @@ Inductive op :=
 | Measure (i : inst) (k : skey) (v : Z)        (* synchronous Add / Record *)
 | Register (c : cbid) (insts : list inst)     (* Meter.RegisterCallback(c, insts...) *)
 | Unregister (c : cbid)                       (* Registration.Unregister *)
-| Collect (script : list attempt).            (* both readers collect *)
+| Collect (script : list attempt) (failing : list cbid).   (* both readers collect *)
 
 (** ** Input side: which recorded values belong to which cycle *)
 
@@ -68,7 +69,7 @@ Fixpoint cycles_sync (i : inst) (h : list op) (cur : list (skey * Z)) : list (li
   match h with
   | [] => []
   | Measure i' k v :: r => cycles_sync i r (if Nat.eqb i' i then cur ++ [(k, v)] else cur)
-  | Collect _ :: r => cur :: cycles_sync i r []
+  | Collect _ _ :: r => cur :: cycles_sync i r []
   | _ :: r => cycles_sync i r cur
   end.
 
@@ -76,8 +77,21 @@ Fixpoint cycles_sync (i : inst) (h : list op) (cur : list (skey * Z)) : list (li
 Fixpoint cycles_async (i : inst) (h : list op) (rs : list reg) : list (list (skey * Z)) :=
   match h with
   | [] => []
-  | Collect s :: r => delivered rs s i :: cycles_async i r rs
+  | Collect s _ :: r => delivered rs s i :: cycles_async i r rs
   | o :: r => cycles_async i r (reg_step rs o)
+  end.
+
+(** does Collect report an error in a cycle: exactly when a registered callback failed.  The
+    observations of that cycle - those of the failing callback included - are reported all the
+    same, and nothing of the cycle is left over for the next one (the clauses below do not
+    mention [failing] at all). *)
+Definition cycle_err (rs : list reg) (failing : list cbid) : bool :=
+  existsb (fun r => existsb (N.eqb (fst r)) failing) rs.
+Fixpoint errs_of (h : list op) (rs : list reg) : list bool :=
+  match h with
+  | [] => []
+  | Collect _ f :: r => cycle_err rs f :: errs_of r rs
+  | o :: r => errs_of r (reg_step rs o)
   end.
 
 (** value of a cycle for one attribute set: several recordings of the same set in
@@ -271,3 +285,65 @@ Definition stream_ok (cl : sclass) (i : inst) (h : list op) (dtr ctr : list sobs
   | CAsyncSum => let cy := cycles_async i h [] in async_deltab [] cy dp && async_cumb cy cp
   | CAsyncGauge => let cy := cycles_async i h [] in gauge_cycleb cy dp && gauge_cycleb cy cp
   end.
+
+(** ** Base-2 exponential histograms that rescale (small MaxSize): scale-independent clauses
+
+    A data point: attribute set, scale, sum, count, zero count, positive and negative buckets as
+    (index, count) pairs.  Delta and cumulative points of the same measurements generally have
+    different scales (the cumulative point has seen a wider range), so buckets are compared after
+    shifting the finer one down: an index i at scale s becomes i >> (s - s') at scale s' <= s. *)
+Definition ebuckets := list (Z * Z).
+Record epoint := { e_key : skey; e_scale : Z; e_sum : Z; e_count : Z; e_zero : Z; e_pos : ebuckets; e_neg : ebuckets }.
+
+Definition bsum (b : ebuckets) : Z := fold_right (fun ic s => snd ic + s) 0 b.
+(** count at index [i] of buckets [b] shifted down by [d] *)
+Definition bshift_count (d i : Z) (b : ebuckets) : Z :=
+  fold_right (fun ic s => (if Z.shiftr (fst ic) d =? i then snd ic else 0) + s) 0 b.
+
+(** every count is in exactly one place *)
+Definition epoint_ok (p : epoint) : bool :=
+  (e_count p =? e_zero p + bsum (e_pos p) + bsum (e_neg p)) && (0 <=? e_zero p) && (0 <? e_count p) &&
+  forallb (fun ic => 0 <? snd ic) (e_pos p ++ e_neg p).
+
+Fixpoint ekeys_sorted (ps : list epoint) : bool :=
+  match ps with
+  | [] => true
+  | p :: r => match r with [] => true | q :: _ => (e_key p <? e_key q)%N && ekeys_sorted r end
+  end.
+
+Definition esum (f : epoint -> Z) (ps : list epoint) : Z := fold_right (fun p s => f p + s) 0 ps.
+
+(** cumulative point [c] against all delta points [ds] reported so far for its attribute set *)
+Definition cum_vs_deltas (c : epoint) (ds : list epoint) : bool :=
+  match ds with [] => false | _ => true end &&
+  (e_count c =? esum e_count ds) && (e_sum c =? esum e_sum ds) && (e_zero c =? esum e_zero ds) &&
+  forallb (fun d => e_scale c <=? e_scale d) ds &&
+  let side (sel : epoint -> ebuckets) :=
+    let idxs := map fst (sel c) ++ flat_map (fun d => map (fun ic => Z.shiftr (fst ic) (e_scale d - e_scale c)) (sel d)) ds in
+    forallb (fun i => bshift_count 0 i (sel c) =? esum (fun d => bshift_count (e_scale d - e_scale c) i (sel d)) ds) idxs in
+  side e_pos && side e_neg.
+
+Definition key_count (k : skey) (m : list (skey * Z)) : Z :=
+  fold_right (fun kc s => (if (fst kc =? k)%N then snd kc else 0) + s) 0 m.
+
+(** [meas]: per cycle, how many values were recorded per attribute set; [obs]: per cycle, the
+    points of the delta reader and of the cumulative reader; [hist]: all delta points so far;
+    [prevc]: the cumulative points of the previous cycle. *)
+Fixpoint expo_run (hist prevc : list epoint) (meas : list (list (skey * Z))) (obs : list (list epoint * list epoint)) : bool :=
+  match meas, obs with
+  | [], [] => true
+  | m :: mr, (dp, cp) :: or_ =>
+      let hist' := hist ++ dp in
+      ekeys_sorted dp && ekeys_sorted cp && forallb epoint_ok dp && forallb epoint_ok cp &&
+      (* the delta view shows exactly the cycle: one point per recorded set, counting every value *)
+      forallb (fun k => esum e_count (filter (fun p => (e_key p =? k)%N) dp) =? key_count k m) (map e_key dp ++ map fst m) &&
+      (* cumulative = running total of the deltas, bucket-wise after aligning scales *)
+      forallb (fun c => cum_vs_deltas c (filter (fun p => (e_key p =? e_key c)%N) hist')) cp &&
+      forallb (fun d => existsb (fun c => (e_key c =? e_key d)%N) cp) hist' &&
+      (* the scale of a cumulative point never goes back up *)
+      forallb (fun c => forallb (fun pc => negb (e_key pc =? e_key c)%N || (e_scale c <=? e_scale pc)) prevc) cp &&
+      expo_run hist' cp mr or_
+  | _, _ => false
+  end.
+Definition expo_ok (meas : list (list (skey * Z))) (obs : list (list epoint * list epoint)) : bool :=
+  expo_run [] [] meas obs.
